@@ -54,25 +54,32 @@ Record PI (s : sys) (x : inst) (xo : oinst) : Prop := mkPI {
   pi_lc : lcpc (pc x) = true -> forall v, get (nm x) (viss s) = Some v -> status_eqb (st v) SPending = false
 }.
 
+Definition c_inst (s : sys) (o : obs) : Prop :=
+  forall i x xo, get i (insts s) = Some x -> get i (oi o) = Some xo -> PI s x xo.
+Definition c_name (s : sys) : Prop :=
+  forall i j x y, get i (insts s) = Some x -> get j (insts s) = Some y -> i <> j -> nm x = nm y ->
+  gonepc (pc x) = true \/ gonepc (pc y) = true.
+Definition c_run (s : sys) : Prop :=
+  forall n v, get n (viss s) = Some v -> is_running_status (st v) = true ->
+  exists j y, get j (insts s) = Some y /\ nm y = n /\ l_done y = false /\ runpc (pc y) = true.
+Definition c_sd (s : sys) (o : obs) : Prop :=
+  forall th order, (exists r, dpc (get_thread s th) = DLoop order r) \/ dpc (get_thread s th) = DWaitAll order ->
+  get th (o_sd_cur o) = Some order.
+Definition c_pend (s : sys) (o : obs) : Prop :=
+  forall th i, spc (get_thread s th) = SPend i \/ spc (get_thread s th) = SPendE i ->
+  exists x, get i (insts s) = Some x /\ o_stopreq (oi_get o i) = true /\ badpc (pc x) = false /\
+            (spc (get_thread s th) = SPendE i -> pend (get_thread s th) = Some (REndEarly i) \/ l_runctx x = true).
+Definition c_after (s : sys) (o : obs) : Prop :=
+  0 < o_sd_done o -> forall i x, get i (insts s) = Some x -> memN i (o_after_sd_spawn o) = true \/ nl x = true.
+
 Record Inv (s : sys) (o : obs) : Prop := mkInv {
-  iv_inst : forall i x xo, get i (insts s) = Some x -> get i (oi o) = Some xo -> PI s x xo;
-  iv_name : forall i j x y, get i (insts s) = Some x -> get j (insts s) = Some y -> i <> j -> nm x = nm y ->
-            gonepc (pc x) = true \/ gonepc (pc y) = true;
-  iv_run : forall n v, get n (viss s) = Some v -> is_running_status (st v) = true ->
-           exists j y, get j (insts s) = Some y /\ nm y = n /\ l_done y = false /\ runpc (pc y) = true;
-  iv_sd : forall th order, (exists r, dpc (get_thread s th) = DLoop order r) \/ dpc (get_thread s th) = DWaitAll order ->
-          get th (o_sd_cur o) = Some order;
-  iv_pend : forall th i, spc (get_thread s th) = SPend i \/ spc (get_thread s th) = SPendE i ->
-            exists x, get i (insts s) = Some x /\ o_stopreq (oi_get o i) = true /\ badpc (pc x) = false /\
-                      (spc (get_thread s th) = SPendE i -> pend (get_thread s th) = Some (REndEarly i) \/ l_runctx x = true);
-  iv_after : 0 < o_sd_done o -> forall i x, get i (insts s) = Some x -> memN i (o_after_sd_spawn o) = true \/ nl x = true
-}.
+  iv_inst : c_inst s o; iv_name : c_name s; iv_run : c_run s; iv_sd : c_sd s o; iv_pend : c_pend s o; iv_after : c_after s o }.
 
 Definition R3 (s : sys) (o : obs) : Prop := Rc cs s o /\ Inv s o.
 
 Lemma Inv_init ord : Inv (init cs ord) (obs0 cs).
 Proof.
-  constructor; cbn; try discriminate.
+  constructor; unfold c_inst, c_name, c_run, c_sd, c_pend, c_after; cbn; try discriminate.
   - intros n v Hv Hr. exfalso. rewrite (get_map_fst init_vis cs n) in Hv. destruct (get n cs) as [c|]; [|discriminate].
     cbn in Hv. injection Hv as <-. unfold init_vis in Hr. cbn in Hr. destruct (deferred c); discriminate.
   - intros th order [[r H]|H]; discriminate.
@@ -156,6 +163,145 @@ Proof.
     + destruct Hp as [Hp|Hp]; auto.
   - intros Hsd i x' Hx'. destruct (flush_bwd _ _ _ _ Hx') as (x & Hx & (En & Ep & _ & _ & _ & Hr & _)).
     destruct (H6 Hsd i x Hx) as [Hm|Hn]; [now left|right; eapply nl_mono; eauto].
+Qed.
+
+
+(* ---- frame transfer ----------------------------------------------------------------------------------------- *)
+Lemma csame_bwd s s' j x' : sys_csame s s' -> get j (insts s') = Some x' -> exists x, get j (insts s) = Some x /\ icore_eq x x'.
+Proof.
+  intros [C _] H. specialize (C j). destruct (get j (insts s)) as [x|]; [|congruence].
+  destruct C as (x2 & E & L). exists x. split; [reflexivity|]. assert (x2 = x') by congruence. now subst.
+Qed.
+Lemma csame_fwd s s' j x : sys_csame s s' -> get j (insts s) = Some x -> exists x', get j (insts s') = Some x' /\ icore_eq x x'.
+Proof. intros [C _] H. specialize (C j). now rewrite H in C. Qed.
+Lemma csame_vis_bwd s s' n v' : sys_csame s s' -> get n (viss s') = Some v' -> exists v, get n (viss s) = Some v /\ st v' = st v.
+Proof.
+  intros [_ D] H. specialize (D n). destruct (get n (viss s)) as [v|]; [|congruence].
+  destruct D as (v2 & E & L). exists v. split; [reflexivity|]. congruence.
+Qed.
+Lemma ocsame_bwd o o' j x' : obs_csame o o' -> get j (oi o') = Some x' -> exists x, get j (oi o) = Some x /\ ocore_eq x x'.
+Proof.
+  intros C H. specialize (C j). destruct (get j (oi o)) as [x|]; [|congruence].
+  destruct C as (x2 & E & L). exists x. split; [reflexivity|]. assert (x2 = x') by congruence. now subst.
+Qed.
+Lemma ocsame_oi_get o o' i : obs_csame o o' -> o_stopreq (oi_get o i) = true -> o_stopreq (oi_get o' i) = true.
+Proof.
+  intros C. unfold oi_get. specialize (C i). destruct (get i (oi o)) as [x|]; [|cbn; discriminate].
+  destruct C as (x' & -> & (_ & _ & _ & H)). exact H.
+Qed.
+
+Lemma nl_core x x' : icore_eq x x' -> nl x' = nl x.
+Proof. intros (_ & Ep & _ & _ & _ & Er). unfold nl. now rewrite Ep, Er. Qed.
+
+Lemma PI_frame s s' x x' xo xo' : sys_csame s s' -> icore_eq x x' -> ocore_eq xo xo' -> PI s x xo -> PI s' x' xo'.
+Proof.
+  intros HS L (Oa & Oc & Og & _) [A B C D E F G I]. pose proof (nl_core _ _ L) as Hnl.
+  destruct L as (En & Ep & Ea & Ee & Ed & Er).
+  constructor; rewrite ?Ep, ?Ea, ?Ee, ?Ed, ?En, ?Oa, ?Oc, ?Og, ?Hnl; auto.
+  intros Hl v' Hv'. destruct (csame_vis_bwd _ _ _ _ HS Hv') as (v & Hv & ->). eauto.
+Qed.
+
+Lemma c_inst_frame s s' o o' : sys_csame s s' -> obs_csame o o' -> c_inst s o -> c_inst s' o'.
+Proof.
+  intros HS HO H i x' xo' Hx' Hxo'. destruct (csame_bwd _ _ _ _ HS Hx') as (x & Hx & L).
+  destruct (ocsame_bwd _ _ _ _ HO Hxo') as (xo & Hxo & LO). eapply PI_frame; eauto.
+Qed.
+Lemma c_name_frame s s' : sys_csame s s' -> c_name s -> c_name s'.
+Proof.
+  intros HS H i j x' y' Hx' Hy' Hij Hn. destruct (csame_bwd _ _ _ _ HS Hx') as (x & Hx & (En & Ep & _)).
+  destruct (csame_bwd _ _ _ _ HS Hy') as (y & Hy & (En2 & Ep2 & _)). rewrite Ep, Ep2. apply (H i j x y); congruence.
+Qed.
+Lemma c_run_frame s s' : sys_csame s s' -> c_run s -> c_run s'.
+Proof.
+  intros HS H n v' Hv' Hr. destruct (csame_vis_bwd _ _ _ _ HS Hv') as (v & Hv & Est). rewrite Est in Hr.
+  destruct (H n v Hv Hr) as (j & y & Hy & Hn & Hd & Hp). destruct (csame_fwd _ _ _ _ HS Hy) as (y' & Hy' & (En & Ep & _ & _ & Ed & _)).
+  exists j, y'. repeat split; congruence.
+Qed.
+Lemma c_after_frame s s' o o' : sys_csame s s' -> o_sd_done o' = o_sd_done o -> o_after_sd_spawn o' = o_after_sd_spawn o ->
+  c_after s o -> c_after s' o'.
+Proof.
+  intros HS E1 E2 H Hsd i x' Hx'. rewrite E1 in Hsd. rewrite E2. destruct (csame_bwd _ _ _ _ HS Hx') as (x & Hx & L).
+  rewrite (nl_core _ _ L). eauto.
+Qed.
+
+(* ---- the instance's own events ---------------------------------------------------------------------------- *)
+Definition vst_bwd (s s' : sys) : Prop :=
+  forall n v', get n (viss s') = Some v' -> exists v, get n (viss s) = Some v /\ st v' = st v.
+Lemma vst_bwd_refl s : vst_bwd s s. Proof. intros n v H. eauto. Qed.
+Lemma vst_bwd_upd_vis n f s : (forall v, st (f v) = st v) -> vst_bwd s (upd_vis n f s).
+Proof.
+  intros Hf m v' H. rewrite viss_upd_vis in H. destruct (N.eqb n m); [|eauto].
+  destruct (get m (viss s)) as [v|]; cbn in H; [|discriminate]. injection H as <-. eauto.
+Qed.
+
+Lemma step_own_vst s th e s' : step_own s th e = Some s' -> vst_bwd s s'.
+Proof.
+  intros H. destruct e; try (unfold step_own in H; destruct (own_inst s th) as [[? ?]|]; [destruct (pc _)|]; discriminate H).
+  all: kind_cases H; unfold set_pc; intros n v' Hv'; autorewrite with sup in Hv'; eauto.
+  all: destruct (N.eqb _ n); eauto; destruct (get n (viss s)) as [v|]; cbn in Hv'; [|discriminate]; injection Hv' as <-; eauto.
+Qed.
+
+Lemma PI_vst s s' x xo : vst_bwd s s' -> PI s x xo -> PI s' x xo.
+Proof.
+  intros HV [A B C D E F G I]. constructor; auto.
+  intros Hl v' Hv'. destruct (HV _ _ Hv') as (v & Hv & ->). eauto.
+Qed.
+
+Lemma c_inst_own s o th e s' : Rc cs s o -> Inv s o -> step_own s th e = Some s' ->
+  W_C03 (obs_pre cs o (th, e)) = false -> c_inst s' (obs_pre cs o (th, e)).
+Proof.
+  intros HRc HI H HW j x' xo' Hx' Hxo'. pose proof (step_own_vst _ _ _ _ H) as HV.
+  destruct e; try (unfold step_own in H; destruct (own_inst s th) as [[? ?]|]; [destruct (pc _)|]; discriminate H).
+  all: cbn [obs_pre ev_inst fst snd] in *; rewrite <- ?(rc_th _ _ _ HRc th) in *.
+  all: kind_cases H.
+  all: repeat match type of Hxo' with context[match ?b with true => _ | false => _ end] => is_var b; destruct b end.
+  all: match goal with E : get _ (thinst _) = Some ?i, E' : get ?i (insts _) = Some ?x |- _ =>
+         unfold set_pc in Hx'; autorewrite with sup in Hx'; autorewrite with obsf in Hxo'; cbn in Hxo';
+         destruct (N.eqb_spec i j);
+         [ subst j; rewrite E' in Hx'; cbn in Hx'; injection Hx' as <-;
+           rewrite ?N.eqb_refl in Hxo';
+           destruct (get i (oi o)) as [xo|] eqn:Exo; cbn in Hxo'; [injection Hxo' as <-|discriminate Hxo'];
+           apply (PI_vst s _ _ _ HV);
+           destruct (iv_inst _ _ HI _ _ _ E' Exo) as [A B C D E_ F G I]
+         | rewrite ?(proj2 (N.eqb_neq i j)) in Hxo' by assumption;
+           apply (PI_vst s _ _ _ HV), (iv_inst _ _ HI _ _ _ Hx' Hxo') ]
+       end.
+  all: repeat match goal with |- context[if ?b then _ else _] => destruct b end.
+  all: constructor; unfold nl in *; cbn; rewrite ?E1 in *; cbn in *; auto; try discriminate; try (intros; discriminate).
+  all: try (destruct found; cbn in *; auto; intros; discriminate).
+  - intros Hd. rewrite (G Hd) in E3. discriminate.
+  - intros He. rewrite He, orb_true_r in B. specialize (B eq_refl). discriminate.
+  - match goal with E : opt_eqb Z.eqb (exited i2) _ = true |- _ => destruct (exited i2); [|discriminate E] end.
+    rewrite (C eq_refl). cbn. auto.
+Qed.
+
+Lemma step_own_mono s th e s' : step_own s th e = Some s' ->
+  exists i x x', get th (thinst s) = Some i /\ get i (insts s) = Some x /\ get i (insts s') = Some x' /\
+    (forall j, j <> i -> get j (insts s') = get j (insts s)) /\
+    nm x' = nm x /\ l_done x' = l_done x /\ l_runctx x' = l_runctx x /\
+    (gonepc (pc x) = true -> gonepc (pc x') = true) /\ (nl x = true -> nl x' = true) /\
+    (runpc (pc x) = true -> runpc (pc x') = true) /\
+    (badpc (pc x') = true -> badpc (pc x) = true \/ e = ERunChecked false) /\
+    (forall th', spc (get_thread s' th') = spc (get_thread s th') /\ dpc (get_thread s' th') = dpc (get_thread s th') /\
+                 (th' <> th -> pend (get_thread s' th') = pend (get_thread s th'))).
+Proof.
+  intros H. destruct e; try (unfold step_own in H; destruct (own_inst s th) as [[? ?]|]; [destruct (pc _)|]; discriminate H).
+  all: kind_cases H.
+  all: match goal with E : get _ (thinst _) = Some ?i, E' : get ?i (insts _) = Some ?x |- _ =>
+         exists i, x; eexists; split; [reflexivity|]; split; [exact E'|]; split;
+         [unfold set_pc; autorewrite with sup; rewrite ?N.eqb_refl, ?E'; cbn; reflexivity|]; split;
+         [intros ? ?; unfold set_pc; autorewrite with sup;
+          try match goal with |- context[N.eqb ?a ?b] => destruct (N.eqb_spec a b); [congruence|] end; reflexivity|]
+       end.
+  all: repeat match goal with |- context[if ?b then _ else _] => is_var b; destruct b end.
+  all: try match goal with |- context[match ?b with Some _ => _ | None => _ end] => is_var b; destruct b end.
+  all: unfold nl; cbn; rewrite ?E1; cbn.
+  all: repeat (split; [solve [auto | intros; discriminate | intros; left; reflexivity | intros; right; reflexivity]|]).
+  all: try (intros th'; unfold set_pc; autorewrite with sup;
+            try match goal with |- context[N.eqb ?a ?b] => destruct (N.eqb_spec a b); [subst|] end; cbn; repeat split; congruence).
+  - split; [intros Hr; rewrite Hr in E3; discriminate|]. destruct (bad_dir (cf i2)); cbn; repeat (split; auto); try discriminate.
+    all: try intros _; unfold set_pc; autorewrite with sup; reflexivity.
+  - intros _; reflexivity.
 Qed.
 
 End RelC03.
